@@ -188,6 +188,7 @@ type c11PipeGen struct {
 	Extra   bool   `json:"extra,omitempty"`    // a ResponseAdaptor between the filter under test and post
 	Resil   bool   `json:"resil,omitempty"`    // Proxy: retry + circuit breaker policies on the main pool
 	Kind    string `json:"kind,omitempty"`     // kind of the filter under test in this generation (empty: the scenario's kind); a generation may keep the NAME and change the KIND
+	Res     *c11Resil `json:"res,omitempty"`   // Proxy variants 6/7: pools, policies, timeouts (c11_resil_test.go)
 }
 
 type c11PipeSc struct {
@@ -199,7 +200,7 @@ type c11PipeSc struct {
 var c11Kinds = []string{"RateLimiter", "RateLimiter", "RateLimiter", "Proxy", "Proxy", "Proxy", "Mock", "ResponseAdaptor", "RequestAdaptor", "Validator",
 	"Fallback", "CORSAdaptor", "ResponseBuilder", "RequestBuilder", "HeaderToJSON", "CertExtractor"}
 
-var c11NVariants = map[string]int{"RateLimiter": 4, "Proxy": 6, "Mock": 4, "ResponseAdaptor": 4, "RequestAdaptor": 5, "Validator": 3,
+var c11NVariants = map[string]int{"RateLimiter": 4, "Proxy": 8, "Mock": 4, "ResponseAdaptor": 4, "RequestAdaptor": 5, "Validator": 3,
 	"Fallback": 2, "CORSAdaptor": 3, "ResponseBuilder": 2, "RequestBuilder": 2, "HeaderToJSON": 2, "CertExtractor": 1}
 
 func c11GenPipe(rng *sim.Rand) *c11PipeSc {
@@ -211,6 +212,14 @@ func c11GenPipe(rng *sim.Rand) *c11PipeSc {
 	}
 	nv := c11NVariants[sc.Kind]
 	g := c11PipeGen{V: rng.Intn(nv), FutName: "fut", Jump: rng.Bool(0.5), Extra: rng.Bool(0.3), Resil: rng.Bool(0.3)}
+	// resilience-observable flavour: every Proxy generation is variant 6 or 7,
+	// requests carry fail scripts for the backend
+	resObs := sc.Kind == "Proxy" && rng.Bool(0.65)
+	pTight := []float64{0, 0.15, 0.5}[rng.Intn(3)]
+	if resObs {
+		g.V = 6 + rng.Intn(2)
+		g.Res = c11GenResil(rng, pTight)
+	}
 	sc.Gens = append(sc.Gens, g)
 	ng := rng.Pick(1, 1, 2, 2, 3)
 	pSame := []float64{0.3, 0.6, 0.9}[rng.Intn(3)]
@@ -218,6 +227,14 @@ func c11GenPipe(rng *sim.Rand) *c11PipeSc {
 		n := sc.Gens[len(sc.Gens)-1]
 		if n.Kind == "" && !rng.Bool(pSame) {
 			n.V = rng.Intn(nv)
+			if resObs {
+				n.V = 6 + rng.Intn(2)
+			}
+		}
+		if resObs {
+			// keep / add / remove / change the policies (also while the kind is
+			// temporarily another one: the next Proxy generation then starts afresh)
+			n.Res = c11EditResil(rng, sc.Gens[len(sc.Gens)-1].Res, pTight)
 		}
 		if rng.Bool(0.15) {
 			// same filter name, another kind
@@ -270,6 +287,10 @@ func c11GenPipe(rng *sim.Rand) *c11PipeSc {
 			}
 			if sc.Kind == "HeaderToJSON" && q.Body > 0 && rng.Bool(0.7) {
 				q.Body = 0
+			}
+			if resObs && rng.Bool(0.75) {
+				q.FailN = rng.Pick(1, 1, 1, 2, 2, 3)
+				q.FailKind = rng.PickStr("conn", "conn", "code", "code", "code", "slow")
 			}
 		}
 	}
@@ -456,7 +477,9 @@ func c11PipeText(name, kind string, gi int, g *c11PipeGen, ample bool) string {
 	flow = append(flow, c11M{"filter": "post"})
 	fs = append(fs, c11M{"name": "post", "kind": "C11Park", "gen": gi, "role": "post", "tag": name})
 	m := c11M{"name": name, "kind": "Pipeline", "flow": flow, "filters": fs}
-	if kind == "Proxy" && g.Resil {
+	if c11ResVariant(kind, g.V) {
+		c11ResApply(m, fs[1], g.V, g.Res, ample)
+	} else if kind == "Proxy" && g.Resil {
 		m["resilience"] = []c11M{
 			{"name": "retry", "kind": "Retry", "maxAttempts": 2, "waitDuration": "1ms"},
 			{"name": "cb", "kind": "CircuitBreaker", "slidingWindowType": "COUNT_BASED", "slidingWindowSize": 10, "failureRateThreshold": 50, "minimumNumberOfCalls": 10, "slowCallDurationThreshold": "1000h"},
@@ -506,8 +529,8 @@ func c11FullOutcome(rec *httptest.ResponseRecorder) string {
 // variant v by "S": the statement does not say which server of the pool serves.
 func c11NormProxy(s string, v int) string {
 	pfx := fmt.Sprintf("v%d", v)
-	for _, kind := range []string{"s", "f", "c"} {
-		for i := 0; i < 4; i++ {
+	for _, kind := range []string{"s", "f", "c", "r"} {
+		for i := 0; i < 8; i++ {
 			s = strings.ReplaceAll(s, fmt.Sprintf("%s%s%d.test:8080", pfx, kind, i), "S")
 		}
 	}
@@ -530,10 +553,13 @@ func c11FilterOf(stack string) string {
 }
 
 // c11ScriptedBackend is installed as the Proxy filters' transport.
-func c11ScriptedBackend(r *sim.Run, onCall func(id string)) func(req *http.Request) (*http.Response, error) {
+func c11ScriptedBackend(r *sim.Run, log *c11BackendLog, onCall func(id string)) func(req *http.Request) (*http.Response, error) {
 	return func(req *http.Request) (*http.Response, error) {
 		id := req.Header.Get("X-C11-Id")
-		if req.Header.Get("X-C11-Twin") == "" {
+		key, twin := c11BackendKey(req)
+		log.attempts[key] = append(log.attempts[key], req.URL.Host)
+		attempt := len(log.attempts[key])
+		if !twin {
 			if onCall != nil {
 				onCall(id)
 			}
@@ -546,7 +572,10 @@ func c11ScriptedBackend(r *sim.Run, onCall func(id string)) func(req *http.Reque
 			return nil, err
 		}
 		server := req.URL.Host
-		status := 200
+		status, ferr := c11BackendFail(r, req, attempt, twin)
+		if ferr != nil {
+			return nil, ferr
+		}
 		if strings.Contains(server, "f") && strings.HasPrefix(req.URL.Path, "/y") {
 			status = 503
 		}
@@ -611,6 +640,9 @@ func c11ParkExtras(q *c11Req, twin bool) []c11KV {
 		w = 0
 	}
 	kv := []c11KV{{"X-C11-Hold", hold(q.Hold)}, {"X-C11-Hold2", hold(q.Hold2)}, {"X-C11-Holdb", hold(q.Hold2)}, {"X-C11-Wait", strconv.FormatInt(w, 10)}}
+	if n, kind := c11FailScript(q); n > 0 {
+		kv = append(kv, c11KV{"X-C11-Fail", strconv.Itoa(n) + ":" + kind})
+	}
 	if twin {
 		kv = append(kv, c11KV{"X-C11-Twin", "1"})
 	}
@@ -676,9 +708,15 @@ func c11ExecPipe(r *sim.Run, sc *c11PipeSc) {
 		return
 	}
 	backendCalls := map[string]int{}
+	blog := &c11BackendLog{attempts: map[string][]string{}}
 	if anyProxy {
-		proxy.C11SetBackend(c11ScriptedBackend(r, func(id string) { backendCalls[id]++ }))
+		proxy.C11SetBackend(c11ScriptedBackend(r, blog, func(id string) { backendCalls[id]++ }))
 	}
+	reqOf := map[string]*c11Req{}
+	for _, x := range all {
+		reqOf[x.id] = x.q
+	}
+	isRes := func(gi int) bool { return gi >= 0 && gi < len(sc.Gens) && c11ResVariant(kindOf(gi), sc.Gens[gi].V) }
 
 	// specs (one object per pipeline instance: Pipeline.reload binds filters into its spec's flow) and twins
 	specs := make([]*supervisor.Spec, len(sc.Gens))
@@ -705,7 +743,7 @@ func c11ExecPipe(r *sim.Run, sc *c11PipeSc) {
 		// system under test is built from the same object. RateLimiter twins need
 		// their own (ample) spec.
 		tsp := sp
-		if kind == "RateLimiter" {
+		if tight := isRes(gi) && sc.Gens[gi].Res != nil && (sc.Gens[gi].Res.Main.CB == "tight" || sc.Gens[gi].Res.Cand.CB == "tight"); kind == "RateLimiter" || tight {
 			tsp, err = c11NewSpec(c11PipeText("p", kind, gi, &sc.Gens[gi], true))
 			if err != nil || tsp == nil {
 				r.Probe("c11.pipe.spec_rejected/" + kind)
@@ -728,7 +766,7 @@ func c11ExecPipe(r *sim.Run, sc *c11PipeSc) {
 		t.reload(front, tm)
 		exp[gi] = map[string]string{}
 		for _, x := range all {
-			rec, pv, st := c11Serve(t, c11HTTPReq(x.q, x.id, c11ParkExtras(x.q, true)...))
+			rec, pv, st := c11Serve(t, c11HTTPReq(x.q, x.id, append(c11ParkExtras(x.q, true), c11KV{"X-C11-Twin", fmt.Sprintf("g%d", gi)})...))
 			if pv != nil {
 				// fails without any update: not this property's business
 				r.Probe("c11.pipe.twin_panics/" + kind)
@@ -755,11 +793,46 @@ func c11ExecPipe(r *sim.Run, sc *c11PipeSc) {
 	curGen, started := 0, 0
 	held := map[string]int{}
 	parkedPre := map[string]bool{}
+	// reference state of the circuit breaker of one (generation, pool), see c11_resil_test.go
+	type cbTrack struct {
+		inflight int
+		racy     bool // two calls overlapped, a call was not judged, or the breaker may have been inherited: no exact state
+		open     bool
+		last     []bool // failed flags of the calls so far (strictly sequential)
+	}
+	cbTracks := map[string]*cbTrack{}
+	cbOf := func(g int, cand bool) *cbTrack {
+		key := fmt.Sprintf("%d/%v", g, cand)
+		tr := cbTracks[key]
+		if tr == nil {
+			tr = &cbTrack{}
+			if isRes(g-1) && sc.Gens[g-1].Res != nil {
+				// the statement does not say whether an unchanged breaker keeps its state across an update
+				pp := c11ResClamp(sc.Gens[g-1].Res)
+				if (cand && sc.Gens[g-1].V == 7 && pp.Cand.CB == "tight") || (!cand && pp.Main.CB == "tight") {
+					tr.racy = true
+				}
+			}
+			cbTracks[key] = tr
+		}
+		return tr
+	}
+	cbEntered := map[string]bool{}
 	mapper := &c11FixedMapper{}
 	mapper.get = func(string) (context.Handler, bool) {
 		p, g := cur, curGen
 		return c11HandlerFunc(func(ctx *context.Context) string {
-			held[c11ReqID(ctx)] = g
+			id := c11ReqID(ctx)
+			held[id] = g
+			if q := reqOf[id]; q != nil && isRes(g) && !cbEntered[id] {
+				cbEntered[id] = true
+				_, cand, _ := c11ResPoolOf(sc.Gens[g].V, sc.Gens[g].Res, q)
+				tr := cbOf(g, cand)
+				tr.inflight++
+				if tr.inflight > 1 {
+					tr.racy = true
+				}
+			}
 			return p.Handle(ctx)
 		}), true
 	}
@@ -803,6 +876,54 @@ func c11ExecPipe(r *sim.Run, sc *c11PipeSc) {
 			kindChange := kindOf(gi) != kindOf(gi-1) && sc.Gens[gi].FutName == sc.Gens[gi-1].FutName
 			if kindChange {
 				r.Probe("c11.pipe.inherit_changes_kind_of_named_filter/to-" + kindOf(gi))
+			}
+			if isRes(gi) && isRes(gi-1) && sc.Gens[gi].FutName == sc.Gens[gi-1].FutName {
+				a, b := c11ResClamp(sc.Gens[gi-1].Res), c11ResClamp(sc.Gens[gi].Res)
+				pools := []struct {
+					n    string
+					o, n2 c11PoolRes
+				}{{"main", a.Main, b.Main}}
+				if sc.Gens[gi].V == 7 && sc.Gens[gi-1].V == 7 {
+					pools = append(pools, struct {
+						n    string
+						o, n2 c11PoolRes
+					}{"candidate", a.Cand, b.Cand})
+				}
+				for _, pl := range pools {
+					switch {
+					case pl.o == pl.n2:
+						r.Probe("c11.pipe.resil.update_keeps_policies/" + pl.n)
+						if pl.o.Retry > 0 || pl.o.CB != "" {
+							r.Probe("c11.pipe.resil.update_changes_something_else_while_policies_stay/" + pl.n)
+						}
+					default:
+						switch {
+						case pl.o.Retry == 0 && pl.n2.Retry > 0:
+							r.Probe("c11.pipe.resil.update_adds_retry/" + pl.n)
+						case pl.o.Retry > 0 && pl.n2.Retry == 0:
+							r.Probe("c11.pipe.resil.update_removes_retry/" + pl.n)
+						case pl.o.Retry != pl.n2.Retry:
+							r.Probe("c11.pipe.resil.update_changes_max_attempts/" + pl.n)
+						}
+						switch {
+						case pl.o.CB == "" && pl.n2.CB != "":
+							r.Probe("c11.pipe.resil.update_adds_breaker/" + pl.n)
+						case pl.o.CB != "" && pl.n2.CB == "":
+							r.Probe("c11.pipe.resil.update_removes_breaker/" + pl.n)
+						case pl.o.CB != pl.n2.CB:
+							r.Probe("c11.pipe.resil.update_changes_breaker/" + pl.n)
+						}
+						if pl.o.Timeout != pl.n2.Timeout {
+							r.Probe("c11.pipe.resil.update_toggles_timeout/" + pl.n)
+						}
+						if pl.o.FailCodes != pl.n2.FailCodes {
+							r.Probe("c11.pipe.resil.update_toggles_failure_codes/" + pl.n)
+						}
+					}
+				}
+				if a.Srv != b.Srv {
+					r.Probe("c11.pipe.resil.update_changes_servers")
+				}
 			}
 			r.Eventf("inherit g%d <- g%d starts (same fut spec: %v, kind %s -> %s)", gi, gi-1, sc.Gens[gi].V == sc.Gens[gi-1].V && sc.Gens[gi].FutName == sc.Gens[gi-1].FutName && kindOf(gi) == kindOf(gi-1), kindOf(gi-1), kindOf(gi))
 			n := &pipeline.Pipeline{}
@@ -895,6 +1016,94 @@ func c11ExecPipe(r *sim.Run, sc *c11PipeSc) {
 				}
 				if rec.Code == 429 {
 					r.Probe("c11.pipe.rate_limited")
+				}
+				if isRes(g) && cbEntered[id] {
+					// reference model of the resilience section (c11_resil_test.go)
+					gen := &sc.Gens[g]
+					pr, cand, judged := c11ResPoolOf(gen.V, gen.Res, q)
+					tr := cbOf(g, cand)
+					tr.inflight--
+					if !judged {
+						tr.racy = true
+					} else {
+						pool := "main"
+						if cand {
+							pool = "candidate"
+							r.Probe("c11.pipe.resil.request_on_candidate_pool")
+						}
+						want := c11ResModel(pr, q)
+						tried := blog.attempts[id]
+						inherited := g > 0 && isRes(g-1) && sc.Gens[g-1].FutName == gen.FutName
+						if inherited {
+							if ppr, pcand, pj := c11ResPoolOf(sc.Gens[g-1].V, sc.Gens[g-1].Res, q); pj && pcand == cand && c11ResModel(ppr, q) != want {
+								interesting++
+								r.Probe("c11.pipe.resil.answer_depends_on_what_the_update_changed")
+								if old {
+									r.Probe("c11.pipe.resil.answer_depends_on_what_the_update_changed_and_generation_already_replaced")
+								}
+							}
+						}
+						if len(tried) > 1 {
+							r.Probe("c11.pipe.resil.retried")
+							if inherited {
+								r.Probe("c11.pipe.resil.retried_on_generation_built_by_inherit")
+							}
+							if old {
+								r.Probe("c11.pipe.resil.retried_on_replaced_generation")
+							}
+						}
+						if want.final == "timeout" {
+							r.Probe("c11.pipe.resil.timeout_decides_answer")
+						}
+						where := fmt.Sprintf("request {%v} (backend script: first %d attempt(s) fail, kind %q) ran on pipeline generation %d (old=%v), %s pool of that generation: %+v", q, q.FailN, q.FailKind, g, old, pool, pr)
+						mustSC := pr.CB == "tight" && !tr.racy && tr.open
+						maySC := pr.CB == "tight" && tr.racy
+						noAttempt5xx := len(tried) == 0 && rec.Code >= 500
+						switch {
+						case mustSC:
+							r.Probe("c11.pipe.resil.short_circuit_required")
+							if !noAttempt5xx {
+								r.Violate("C11.pipe.resilience-breaker/Proxy", "%s\nthe two calls before this one on that generation and pool failed (strictly sequential calls, failed flags %v), its circuit breaker (window 2, threshold 100%%, open for 1000h) must short-circuit this call; got status %d after backend attempts %v\nspec g%d: %s",
+									where, tr.last, rec.Code, tried, g, texts[g])
+								return
+							}
+							continue
+						case maySC && noAttempt5xx:
+							r.Probe("c11.pipe.resil.short_circuit_accepted_state_not_exact")
+							continue
+						}
+						if pr.CB == "tight" && !tr.racy {
+							r.Probe("c11.pipe.resil.short_circuit_forbidden")
+						}
+						switch {
+						case len(tried) == 0:
+							r.Violate("C11.pipe.resilience-breaker/Proxy", "%s\nanswered %d without any backend attempt, but nothing in the spec of generation %d allows to short-circuit this call (breaker %q, failed flags of the calls so far %v); expected %v\nspec g%d: %s",
+								where, rec.Code, g, pr.CB, tr.last, want, g, texts[g])
+							return
+						case len(tried) != want.attempts:
+							r.Violate("C11.pipe.resilience-attempts/Proxy", "%s\nthe backend was tried %d time(s) %v, the spec of generation %d requires %v; status %d\nspec g%d: %s",
+								where, len(tried), tried, g, want, rec.Code, g, texts[g])
+							return
+						case !want.statusOK(rec.Code):
+							r.Violate("C11.pipe.resilience-status/Proxy", "%s\nstatus %d after backend attempts %v, the spec of generation %d requires %v\nspec g%d: %s",
+								where, rec.Code, tried, g, want, g, texts[g])
+							return
+						}
+						allowed := c11ResServers(gen.V, gen.Res, cand)
+						for _, sv := range tried {
+							if sv != allowed[0] && sv != allowed[len(allowed)-1] {
+								r.Violate("C11.pipe.resilience-server/Proxy", "%s\nattempts went to %v, the pool of generation %d lists %v\nspec g%d: %s", where, tried, g, allowed, g, texts[g])
+								return
+							}
+						}
+						if pr.CB == "tight" && !tr.racy {
+							tr.last = append(tr.last, want.failed)
+							if n := len(tr.last); n >= 2 && tr.last[n-1] && tr.last[n-2] {
+								tr.open = true
+								r.Probe("c11.pipe.resil.breaker_open_by_reference")
+							}
+						}
+					}
 				}
 				ok := got == exp[g][id]
 				if !ok && kind == "RateLimiter" && rec.Code == http.StatusTooManyRequests && rec.Header().Get("X-EG-Rate-Limiter") == "too-many-requests" {
